@@ -13,7 +13,7 @@
        sqrt and 1/sqrt: evaluated in 2^-44 fixed point (Z.sqrt, Taylor series).  These are numerical
        evaluations with error far below the guard band of the property (1e-5); nothing is proved about
        their accuracy (validated by the correspondence only). *)
-From Coq Require Import List ZArith Bool Arith.
+From Coq Require Import List ZArith QArith Bool Arith.
 Import ListNotations.
 Require Import MD.Gen.HbondTables MD.Gen.HbondFormulas.
 Local Open Scope Z_scope.
@@ -221,6 +221,100 @@ Definition wn_presence (p : wn_params) (f : frame) (t : triplet) : bool :=
         (if 7 * SC <? 4 * phi then fx_cos phi else fx_cos_small phi) <? cosd
   end.
 
+(* ----------------------------------------------------------------- the cone with rigorous enclosures *)
+(* Everything that is not exact integer arithmetic is replaced by a pair of rational bounds (proved in
+   Hbond/WnR.v against the real-valued criterion):
+     sqrt          Z.sqrt of a scaled integer, rounded down / up           (qsqrt_lo, qsqrt_hi)
+     pi            3141592653/10^9 < pi < 3141592654/10^9
+     cos           partial sums of the alternating series, exact in Q        (qcos_lo: 8 terms, qcos_up: 9 terms)
+   wn_sure  = true  implies the real criterion  r < cut - const * delta_deg^2
+   wn_maybe = false implies its negation. *)
+Local Open Scope Q_scope.
+Definition TT : Z := (2 ^ 24)%Z.
+Definition TTp : positive := Z.to_pos TT.
+Definition qsqrt_z (q : Q) : Z := Z.sqrt (Qnum q * TT * TT / Zpos (Qden q))%Z.
+Definition qsqrt_lo (q : Q) : Q := qsqrt_z q # TTp.
+Definition qsqrt_hi (q : Q) : Q := (qsqrt_z q + 1)%Z # TTp.
+(* rounding a rational down / up to a multiple of 1/TT (keeps the numbers small) *)
+Definition qdown (t : positive) (q : Q) : Q := (Qnum q * Zpos t / Zpos (Qden q))%Z # t.
+Definition qup (t : positive) (q : Q) : Q := (Qnum q * Zpos t / Zpos (Qden q) + 1)%Z # t.
+Definition pi_lo : Q := 3141592653 # 1000000000.
+Definition pi_hi : Q := 3141592654 # 1000000000.
+
+(* sum_{i<=m} (-1)^i a^(2i)/(2i)!  in Horner form; m = 7: below cos a, m = 8: above cos a, for |a| <= 2 *)
+Definition qcos_poly (m : nat) (a : Q) : Q :=
+  let x := a * a in
+  fold_right (fun i acc => 1 - x * acc / (inject_Z (Z.of_nat ((2 * i + 1) * (2 * i + 2))))) 1 (seq 0 m).
+Definition qcos_lo (a : Q) : Q := qcos_poly 7 a.
+Definition qcos_up (a : Q) : Q := qcos_poly 8 a.
+
+Definition q_of_pair (c : Z * Z) : Q := fst c # Z.to_pos (snd c).
+
+Section ConeBounds.
+  Variables (G : Z) (cut k : Q) (a2 b2 c2 : Z).   (* a2 = |DA|^2, b2 = |DH|^2, c2 = |HA|^2, grid units *)
+
+  Definition r_lo : Q := qsqrt_lo (inject_Z a2) / inject_Z G.
+  Definition r_hi : Q := qsqrt_hi (inject_Z a2) / inject_Z G.
+  (* half-angle bound phi = sqrt((cut - r)/k) * pi/180, from below (uses r_hi) and from above (uses r_lo) *)
+  Definition phi_lo (t : positive) : Q := qdown t (qsqrt_lo ((cut - r_hi) / k) * pi_lo / 180).
+  Definition phi_hi (t : positive) : Q := qup t (qsqrt_hi ((cut - r_lo) / k) * pi_hi / 180).
+  (* cos(delta) = N / (2 sqrt(a2 b2)) *)
+  Definition nn : Z := (a2 + b2 - c2)%Z.
+  Definition cosd_lo : Q :=
+    inject_Z nn / (2 * (if (0 <=? nn)%Z then qsqrt_hi (inject_Z (a2 * b2)) else qsqrt_lo (inject_Z (a2 * b2)))).
+  Definition cosd_hi : Q :=
+    inject_Z nn / (2 * (if (0 <=? nn)%Z then qsqrt_lo (inject_Z (a2 * b2)) else qsqrt_hi (inject_Z (a2 * b2)))).
+
+  Definition qlt (x y : Q) : bool := (Qnum x * Zpos (Qden y) <? Qnum y * Zpos (Qden x))%Z.
+  Definition qle (x y : Q) : bool := (Qnum x * Zpos (Qden y) <=? Qnum y * Zpos (Qden x))%Z.
+
+  (* t = resolution to which the half-angle bound is rounded (outwards) before the series is summed *)
+  Definition cone_sure_at (t : positive) : bool :=
+    (0 <? a2 * b2)%Z && qlt 0 (cut - r_hi) && qle (phi_hi t) 2 && qlt (qcos_up (phi_lo t)) cosd_lo.
+  Definition cone_maybe_at (t : positive) : bool :=
+    (0 <? a2 * b2)%Z && qlt 0 (cut - r_lo) && (negb (qle (phi_hi t) 2) || qlt (qcos_lo (phi_hi t)) cosd_hi).
+  (* The decision procedures: coarse resolution first (cheap, decides almost every triplet), the fine one
+     only when the coarse enclosure is inconclusive; shared sub-results are computed once.
+     cone_sure_spec / cone_maybe_spec (Hbond/WnR.v) show they are  sure_at 2^10 || sure_at 2^24  and
+     maybe_at 2^10 && maybe_at 2^24. *)
+  Definition cone_sure : bool :=
+    if negb (0 <? a2 * b2)%Z then false else
+    let zr := qsqrt_z (inject_Z a2) in
+    let sl := cut - ((zr + 1)%Z # TTp) / inject_Z G in
+    if negb (qlt 0 sl) then false else
+    let pl := qsqrt_lo (sl / k) * pi_lo / 180 in
+    let ph := qsqrt_hi ((cut - (zr # TTp) / inject_Z G) / k) * pi_hi / 180 in
+    let cl := cosd_lo in
+    if qle (qup 1024 ph) 2 && qlt (qcos_up (qdown 1024 pl)) cl then true
+    else qle (qup 16777216 ph) 2 && qlt (qcos_up (qdown 16777216 pl)) cl.
+  Definition cone_maybe : bool :=
+    if negb (0 <? a2 * b2)%Z then false else
+    let sh := cut - r_lo in
+    if negb (qlt 0 sh) then false else
+    let ph := qsqrt_hi (sh / k) * pi_hi / 180 in
+    let ch := cosd_hi in
+    if negb (qle (qup 1024 ph) 2) || qlt (qcos_lo (qup 1024 ph)) ch
+    then negb (qle (qup 16777216 ph) 2) || qlt (qcos_lo (qup 16777216 ph)) ch
+    else false.
+End ConeBounds.
+
+Local Close Scope Q_scope.
+
+Definition wn_sure (p : wn_params) (f : frame) (t : triplet) : bool :=
+  match t with (d, h, a) =>
+    let a2 := dist2 (wn_periodic p) f d a in
+    if negb (dist_lt a2 (fst (wn_cut p) * wn_G p) (snd (wn_cut p))) then false
+    else cone_sure (wn_G p) (q_of_pair (wn_cut p)) (q_of_pair (wn_const p)) a2
+                   (dist2 (wn_periodic p) f d h) (dist2 (wn_periodic p) f h a)
+  end.
+Definition wn_maybe (p : wn_params) (f : frame) (t : triplet) : bool :=
+  match t with (d, h, a) =>
+    let a2 := dist2 (wn_periodic p) f d a in
+    if negb (dist_lt a2 (fst (wn_cut p) * wn_G p) (snd (wn_cut p))) then false
+    else cone_maybe (wn_G p) (q_of_pair (wn_cut p)) (q_of_pair (wn_const p)) a2
+                    (dist2 (wn_periodic p) f d h) (dist2 (wn_periodic p) f h a)
+  end.
+
 (* distances(D,A) < 0.33 for the stage-one mask (freq = 0.0: in at least one frame) *)
 Definition wn_close (p : wn_params) (f : frame) (t : triplet) : bool :=
   match t with (d, h, a) =>
@@ -229,10 +323,13 @@ Definition wn_close (p : wn_params) (f : frame) (t : triplet) : bool :=
 (* mask from the distance alone (mean(d < 0.33) > 0.0), then per frame the cone on the masked triplets.
    The last factor of the code, "angles < angle_cutoff" with angle_cutoff = 45 and angles in RADIANS,
    is always true (angles <= pi < 45) and is therefore not modelled. *)
-Definition wernet_nilsson (p : wn_params) (t : topo) (fs : list frame) : result (list (list triplet)) :=
+Definition wernet_nilsson_with (pres : wn_params -> frame -> triplet -> bool)
+           (p : wn_params) (t : topo) (fs : list frame) : result (list (list triplet)) :=
   match bond_triplets (wn_ew p) (wn_sc p) t with
   | ErrNoBonds => ErrNoBonds
   | Ok trip =>
     let stage1 := filter (fun tr => existsb (fun f => wn_close p f tr) fs) trip in
-    Ok (map (fun f => filter (fun tr => wn_presence p f tr) stage1) fs)
+    Ok (map (fun f => filter (fun tr => pres p f tr) stage1) fs)
   end.
+(* nominal (fixed-point) evaluation; the correspondence uses wn_sure / wn_maybe *)
+Definition wernet_nilsson := wernet_nilsson_with wn_presence.
